@@ -182,6 +182,12 @@ func genC13Cache(level int) []*CacheScen {
 	out = append(out, genC07Cache(level)...)
 	for _, tw := range []int{0, 1, 2} {
 		add := func(cs *CacheScen) { cs.Twin = tw; out = append(out, cs) }
+		// the Range visitor calls back into the cache (any method): alone and against a writer
+		for _, vo := range []CIn{con(cSet, 2), con(cSet, -1), con(cDelete, -1), con(cGaD, 1), cDelExp, cClear, cRange, con(cGoC, 2), con(cGaR, -1), {Op: CItems}, cCount} {
+			vo := vo
+			add(&CacheScen{Rel: RelSD, NKeys: 3, Init: []int{ILive, IExpired, IAbsent}, Table: TPlain, Callback: true, VisitorOp: &vo, Threads: [][]CIn{{cRange}}})
+			add(&CacheScen{Rel: RelSD, NKeys: 3, Init: []int{ILive, ILive, IAbsent}, Table: TPlain, Callback: true, VisitorOp: &vo, Threads: [][]CIn{{cRange}, {con(cSet, 0)}}})
+		}
 		// evicted callback re-enters the cache: sequentially and against a concurrent writer
 		for _, rm := range []CIn{cDelete, cGaD, cDelExp} {
 			for _, ini := range []int{ILive, IExpired} {
